@@ -61,6 +61,13 @@ Fixpoint subst (s : senv) (e : expr) {struct e} : expr :=
   | ELet x t m e0 => ELet x (tsubst (fst s) t) m (subst s e0)
   | EAssign lhs rhs => EAssign (subst s lhs) (subst s rhs)
   | EPrint a => EPrint (subst s a)
+  | EDefer d => EDefer (subst s d)
+  | EInject t k a => EInject (tsubst (fst s) t) k (subst s a)
+  | ESwitch t a x arms dflt =>
+      ESwitch (tsubst (fst s) t) (subst s a) x (map (subst s) arms) (option_map (subst s) dflt)
+  | EIsVariant a k => EIsVariant (subst s a) k
+  | EUnwrap a k => EUnwrap (subst s a) k
+  | ETry a => ETry (subst s a)
   end.
 
 (* the hand-substituted, non-generic copy of [fd] for the comptime arguments [s] *)
@@ -79,10 +86,10 @@ Definition int_senvb (s : senv) : bool := forallb is_vint (snd s).
 Definition int_senv (s : senv) : Prop :=
   forall v, In v (snd s) -> exists i z, v = VInt i z.
 
-(* statements of a block whose head is not a [let] (used to state how
-   [eval_stmts] dispatches) *)
+(* plain statements of a block: the head is neither a [let] nor a [defer] (used
+   to state how [eval_stmts] dispatches) *)
 Definition nonlet (e : expr) : Prop :=
-  match e with ELet _ _ _ _ => False | _ => True end.
+  match e with ELet _ _ _ _ => False | EDefer _ => False | _ => True end.
 
 (* results equal up to the function a run-time fault is attributed to *)
 Definition res_eq_upto_fn (r1 r2 : res) : Prop :=
@@ -99,6 +106,7 @@ Fixpoint value_eqb (a b : value) {struct a} : bool :=
   | VUnit, VUnit => true
   | VArr xs, VArr ys => list_eqb value_eqb xs ys
   | VStruct xs, VStruct ys => list_eqb value_eqb xs ys
+  | VSum j x, VSum k y => Nat.eqb j k && value_eqb x y
   | _, _ => false
   end.
 
